@@ -59,8 +59,10 @@ Definition pc_signed_contract (sc : signed_contract) : list Z :=
 
 (* ---------- decoders (input -> value and unread rest) ---------- *)
 
-(* try_take_varint_u16: at most 3 bytes, the third one without continuation bit and at most 3 (for bytes, that is
-   exactly: the accumulated value fits 16 bits); padded encodings such as [128; 0] are accepted *)
+(* try_take_varint_u16 = `varint_dec 3`: at most 3 bytes, the third one without continuation bit and at most
+   max_of_last_byte::<u16>() = 3; padded encodings such as [128; 0] are accepted.  (The value check below says the
+   same thing once more: for bytes, third byte <= 3 iff the accumulated value fits 16 bits;
+   Proofs/PostcardAllProofs.v dec_u16_is_varint_dec.) *)
 Definition dec_u16 (bs : list Z) : option (Z * list Z) :=
   match varint_dec 3 bs with
   | Some (n, r) => if n <? 65536 then Some (n, r) else None
@@ -135,6 +137,16 @@ Definition dec_signed_contract (bs : list Z) : option (signed_contract * list Z)
     end
   | None => None
   end.
+
+(* `Solution`'s two addresses go through hash::deserialize::<32> as well: a byte sequence of any other length is refused.
+   `dec_solution` (Proofs/PostcardProofs.v) reads them as plain byte sequences; the strict readers add the length test, which
+   is what `postcard::from_bytes::<Solution>` / `::<SolutionSet>` do. *)
+Definition dec_solution_strict (bs : list Z) : option (solution * list Z) :=
+  match dec_solution bs with
+  | Some (s, r) => if Nat.eqb (length (sol_contract s)) 32 && Nat.eqb (length (sol_predicate s)) 32 then Some (s, r) else None
+  | None => None
+  end.
+Definition dec_solution_set_strict : list Z -> option (list solution * list Z) := dec_seq dec_solution_strict.
 
 (* `postcard::from_bytes`: decode one value, trailing bytes are ignored *)
 Definition from_bytes {A} (d : list Z -> option (A * list Z)) (bs : list Z) : option A :=
